@@ -392,13 +392,15 @@ CTX_TAGS = ("third-caption-over-flipped-memory", "blank-line", "row-rewritten")
 
 
 class _Cut:
-  n0 = None
+  bases = []    # symbolic frame count of every SCC line, in file order
+  k = 0
   rate = None
 
 
 def _cut_parse(time_code, base_frame_rate):
   t = tc.SmpteTimeCode(0, 0, 0, 0, _Cut.rate)
-  t._vf_n = _Cut.n0
+  t._vf_n = _Cut.bases[_Cut.k]
+  _Cut.k += 1
   return t
 
 
@@ -450,6 +452,7 @@ class Gen:
     self.n = 0
     self.words = []
     self.tags = set()
+    self.breaks = []      # indices in self.words where a new SCC line starts
     self.single = None
     self.nctrl = 0
     self.lim = dict(SIMPLE, **limits)
@@ -466,6 +469,12 @@ class Gen:
     per = base.get("per_line") or []
     self.lim = dict(base, **(per[min(k, len(per) - 1)] if per else {}))
     return self.lim
+
+  def newline(self):
+    """the following words go on a new SCC line (own time code) when the grammar allows it"""
+    if self.lim.get("multi_line") and self.words and (not self.breaks or self.breaks[-1] != len(self.words)):
+      self.breaks.append(len(self.words))
+      self.tags.add("multi-line")
 
   def count(self, what, spec):
     """a count in 1..spec, or exactly spec[0] when a list"""
@@ -541,7 +550,9 @@ class Gen:
       self.tags.add("EDM-before-EOC")
     self.ctrl(w_misc("EOC"))
     tail = self.pick("tail", lim["tails"])
-    self.lim = dict(SIMPLE, **dict({k: v for k, v in first.items() if k in ("ch2", "single_ok")}, **lim.get("second", {})))
+    self.newline()
+    self.lim = dict(SIMPLE, **dict({k: v for k, v in first.items() if k in ("multi_line",)}))
+    self.lim = dict(self.lim, **dict({k: v for k, v in first.items() if k in ("ch2", "single_ok")}, **lim.get("second", {})))
     if tail == 1:
       self.nulls()
       self.ctrl(w_misc("EDM"))
@@ -580,6 +591,7 @@ def _rollup(self):
   for k in range(nlines):
     lim = self.line_lim(base, k)
     if k:
+      self.newline()
       self.ctrl(w_misc("CR"))
     if k == 0 or (lim.get("pac_optional") and self.flag("pac")) or not lim.get("pac_optional"):
       self.ctrl(w_pac(15, **PAC_MENU[self.pick("pac", lim["pacs"])]))
@@ -600,6 +612,8 @@ def _rollup(self):
     self.nulls()
   self.lim = lim = base
   tail = self.pick("tail", lim["tails"])
+  if tail:
+    self.newline()
   if tail == 1:
     self.ctrl(w_misc("EDM"))
     self.tags.add("erased-by-EDM")
@@ -620,12 +634,16 @@ def _painton(self):
   rows = []
   for k in range(self.count("nrows", lim["rows"])):
     self.line_lim(lim, k)
+    if k:
+      self.newline()
     self.row(rows)
     if k == 0 and self.ch2():
       self.ctrl(w_misc("RDC"))
     self.nulls()
   self.lim = lim
   tail = self.pick("tail", lim["tails"])
+  if tail:
+    self.newline()
   if tail == 1:
     self.ctrl(w_misc("EDM"))
     self.tags.add("erased-by-EDM")
@@ -646,15 +664,19 @@ Gen.rollup = _rollup
 Gen.painton = _painton
 
 
-def build_text(ex, words, parity, df, n0c=None):
-  """SCC text: in symbolic runs the label is a placeholder (parse is cut), natively it is the label of frame n0"""
+def build_text(lines, parity, df, bases=None):
+  """SCC text, one caption line per element of `lines`: in symbolic runs the labels are placeholders (parse is cut),
+  natively they are the labels of the concrete frame counts `bases`"""
   sep = ";" if df else ":"
-  if n0c is None:
-    label = "00:00:00" + sep + "00"
-  else:
-    t = tc.SmpteTimeCode.from_frames(n0c, DF if df else NDF)
-    label = "%02d:%02d:%02d%s%02d" % (t.get_hours(), t.get_minutes(), t.get_seconds(), sep, t.get_frames())
-  return "Scenarist_SCC V1.0\n\n" + label + "\t" + render_words(words, parity) + "\n\n"
+  out = "Scenarist_SCC V1.0\n\n"
+  for k, words in enumerate(lines):
+    if bases is None:
+      label = "00:00:00" + sep + "00"
+    else:
+      t = tc.SmpteTimeCode.from_frames(bases[k], DF if df else NDF)
+      label = "%02d:%02d:%02d%s%02d" % (t.get_hours(), t.get_minutes(), t.get_seconds(), sep, t.get_frames())
+    out += label + "\t" + render_words(words, parity) + "\n\n"
+  return out
 
 
 class SccHarness(Harness):
@@ -670,7 +692,7 @@ class SccHarness(Harness):
                  "the model); styles are compared on non-space characters")
   outside = ("columns within a row (the model keeps only the caption's left-most indent)", "background/attribute codes, flash, "
              "text mode, field 2 / XDS", "null padding between the two copies of a doubled control code",
-             "more than one SCC line per file", "streams that violate the protocols (text before any mode code, >32 columns)")
+             "streams that violate the protocols (text before any mode code, >32 columns)")
   validate_models = 40
 
   def patches(self, params):
@@ -687,21 +709,33 @@ class SccHarness(Harness):
     df = bool(params["df"])
     rate = DF if df else NDF
     parity = bool(params["parity"])
-    n0 = ex.integer("n0", 0, 24 * 3600 * 30 - 1000)
+    n0 = ex.integer("n0", 0, 24 * 3600 * 30 - 20000)
     gen = Gen(ex, params["lim"])
     words = self.generate(gen, params)
     tags = sorted(gen.tags)
+    # SCC lines: line k starts at frame base[k]; a line starts no earlier than the end of the previous line's words
+    starts = [0] + gen.breaks
+    lines = [words[a:b] for a, b in zip(starts, starts[1:] + [len(words)])]
+    bases = [n0]
+    for k in range(1, len(lines)):
+      gap = ex.integer("gap%d" % k, 0, 3000)
+      bases.append(bases[-1] + len(lines[k - 1]) + gap)
+    line_of = []
+    for k, ws in enumerate(lines):
+      line_of += [(k, i) for i in range(len(ws))]
+    self._frames = (bases, line_of)
     if ex.symbolic:
-      _Cut.n0, _Cut.rate = n0, rate
-      text = build_text(ex, words, parity, df)
+      _Cut.bases, _Cut.k, _Cut.rate = bases, 0, rate
+      text = build_text(lines, parity, df)
     else:
-      text = build_text(ex, words, parity, df, int(n0))
+      text = build_text(lines, parity, df, [int(b) for b in bases])
     align = [None, TextAlignment.LEFT, TextAlignment.AUTO][params.get("align", 0)]
     cfg = SccReaderConfiguration(text_align=align) if align is not None else None
     doc, exc = call(ex, scc_reader.to_model, text, cfg)
     det = {"mode": params["mode"], "ctx": [t for t in tags if t in CTX_TAGS], "_tags": tags}
     if exc:
-      ex.fail("C18:scc-reader-raises", dict(det, site=exc[1], exc=type(exc[0]).__name__, _words=render_words(words, False)))
+      ex.fail("C18:scc-reader-raises", dict(det, site=exc[1], exc=type(exc[0]).__name__,
+                                            _words=" / ".join(render_words(ws, False) for ws in lines)))
       return
     if "C08" not in ex.active:
       return
@@ -710,10 +744,10 @@ class SccHarness(Harness):
       ref.feed(i, w)
     want = runs(ref.events)
     got = doc_paragraphs(doc)
-    det["_words"] = render_words(words, False)
+    det["_words"] = " / ".join(render_words(ws, False) for ws in lines)
     for t in gen.tags:
       ex.witness("tag:" + t)
-    n0z = zint(n0)
+    n0z = None
     texts = lambda rows: [t for _, t, _ in rows]
     gi = 0
     for (i_in, k_in, snaps, i_out, k_out) in want:
@@ -776,64 +810,62 @@ class SccHarness(Harness):
     ex.witness("captions-compared", len(want) > 0)
 
   def edge(self, ex, det, which, val, n0z, idx, kind, rate, words):
+    """val must lie in the transmission window of word idx: [base+i, base+i+1] frames of its line"""
     aid = "C08:%s-in-window" % which
     if val is None:
       ex.fail(aid, dict(det, by=kind, pattern="missing"))
       return
-    lo = (z3.ToReal(n0z) + idx) / RV(rate)
-    hi = (z3.ToReal(n0z) + idx + 1) / RV(rate)
+    bases, line_of = self._frames
+    ln, off = line_of[idx]
+    bz = z3.ToReal(zint(bases[ln]))
     v = zreal(val)
-    cond = Or(v == lo, v == hi)
+    cond = Or(v == (bz + off) / RV(rate), v == (bz + off + 1) / RV(rate))
     if ex.is_certain(cond):
       ex.prove(cond, aid, dict(det, by=kind))
       return
-    # classify the offset for the finding key: delta in frames relative to the end of the window
+    # --- classification of the observed offset (finding key only): frames relative to the end of the window, and the
+    # frames the reader stamps on the words of this line (it does not count the second copy of a doubled channel-1 code)
+    first = idx - off
     skipped = 0
+    stamps = set()
     prev = None
-    for j in range(idx + 1):
+    for j in range(0, idx + 1):
       w = words[j]
-      if (w >> 8) & 0x08 and 0x10 <= (w >> 8) <= 0x1F:
+      is_ctrl = 0x10 <= (w >> 8) <= 0x1F
+      if j == first:
+        skipped = 0
+      if is_ctrl and (w >> 8) & 0x08:
         continue
-      if prev is not None and prev == w and 0x10 <= (w >> 8) <= 0x1F:
-        skipped += 1
+      if prev is not None and prev == w and is_ctrl:
+        if j >= first:
+          skipped += 1
         prev = None
-      elif w != 0:
+        continue
+      if is_ctrl and first <= j < idx:
+        stamps.add(j - first + 1 - skipped)
+      if w != 0:
         prev = w
     pattern = "other"
-    off = z3.simplify(v * RV(rate) - z3.ToReal(n0z) - (idx + 1))
-    if z3.is_rational_value(off) and off.denominator_as_long() == 1:
-      d = off.numerator_as_long()
-      # (classification only) frames ttconv stamps on the channel-1 control codes before a received text
-      stamps = set()
-      if kind == "text":
-        sk, pv = 0, None
-        for j in range(idx):
-          w = words[j]
-          if (w >> 8) & 0x08 and 0x10 <= (w >> 8) <= 0x1F:
-            continue
-          if 0x10 <= (w >> 8) <= 0x1F:
-            if pv is not None and pv == w:
-              sk += 1
-              pv = None
-              continue
-            stamps.add(j + 1 - sk)
-          if w != 0:
-            pv = w
+    d_term = z3.simplify(v * RV(rate) - bz - (off + 1))
+    if z3.is_rational_value(d_term) and d_term.denominator_as_long() == 1:
+      d = d_term.numerator_as_long()
       if d == -skipped:
         pattern = "late-by-0-minus-doubled-ch1-codes-before"
       elif d == 1 - skipped and kind == "EDM":
         pattern = "late-by-1-minus-doubled-ch1-codes-before"
-      elif kind == "text" and d < -1 and (idx + 1 + d) in stamps:
+      elif kind == "text" and d < -1 and (off + 1 + d) in stamps:
         pattern = "shown-before-received-at-an-earlier-code"
       else:
         pattern = "delta=%d,doubled=%d" % (d, skipped)
+    elif ln > 0:
+      pattern = "stamped-on-another-line"
     ex.prove(cond, aid, dict(det, by=kind, pattern=pattern, doubled_before=skipped > 0))
 
 
 class PopOnHarness(SccHarness):
   name = "c08_popon"
-  required_witnesses = ("captions-compared", "tag:erased-by-EDM", "tag:replaced-by-EOC", "tag:replaced-by-empty-EOC")
-  bounds = {"quick": "one SCC line at a symbolic start frame n0 in [0, 24h) x {NDF, DF} x parity {set, cleared}; pop-on grammar RCL ENM rows [nulls] EOC then {EOF | EDM | second caption + EOC [EDM] | empty "
+  required_witnesses = ("captions-compared", "tag:erased-by-EDM", "tag:replaced-by-EOC", "tag:replaced-by-empty-EOC", "tag:multi-line")
+  bounds = {"quick": "1-3 SCC lines, the first at a symbolic start frame n0 in [0, 24h), each later one a symbolic gap of 0..3000 frames after the previous line's last word, x {NDF, DF} x parity {set, cleared}; pop-on grammar RCL ENM rows [nulls] EOC then {EOF | EDM | second caption + EOC [EDM] | empty "
                      "flip}, explored in 4 families: placement (6 rows x 6 PACs x tab 0/1/3), text items (1-2 of 10 after 2 PACs), "
                      "two-row captions (ordered pairs of 4 rows x 2 PACs x 3 items), varied second caption",
             "thorough": "same families with larger menus plus three-row captions, EDM before EOC, interleaved channel-2 block, single "
@@ -843,21 +875,24 @@ class PopOnHarness(SccHarness):
   def partitions(self, tier):
     out = []
 
-    def add(lim, combos):
+    def add(lim, combos, ml=False):
       for df, parity, align in combos:
         out.append({"mode": "pop", "df": df, "parity": parity, "align": align, "lim": lim})
+        if ml:   # the same family with every caption on its own SCC line (own symbolic time code)
+          out.append({"mode": "pop", "df": 1 - df, "parity": parity, "align": align, "lim": dict(lim, multi_line=1)})
 
     all4 = [(0, 0, 0), (0, 1, 0), (1, 0, 0), (1, 1, 0)]
     two = [(0, 1, 0), (1, 0, 2)]
     if tier == "quick":
       # placement: every row x PAC x tab offset, one text item, every tail
       add(dict(rows_menu=FULL["rows_menu"], pacs=FULL["pacs"], tabs=FULL["tabs"], nulls=2, tails=[0, 1, 2, 3]), all4)
+      add(dict(rows_menu=[0, 2], pacs=[0, 3], tabs=[0, 1], nulls=2, tails=[1, 2, 3]), two[:1], ml=True)
       # text items: 1-2 of the 10 items after a plain and an italics PAC
       add(dict(pacs=[0, 5], item_menu=FULL["item_menu"], items=2, tails=[0, 1]), two)
       # two rows: ordered pairs of 4 rows, 2 PACs, 3 items each
       add(dict(rows_menu=[0, 1, 2, 5], pacs=[0, 3], item_menu=[0, 6, 7], rows=[2], tails=[0, 2]), two)
       # second caption varied
-      add(dict(tails=[2], second=dict(rows_menu=[0, 1, 2, 3], pacs=[0, 3, 5], tabs=[0, 1], item_menu=[0, 3, 5, 6], nulls=2)), two)
+      add(dict(tails=[2], second=dict(rows_menu=[0, 1, 2, 3], pacs=[0, 3, 5], tabs=[0, 1], item_menu=[0, 3, 5, 6], nulls=2)), two, ml=True)
     else:
       aligns = [(0, 0, 0), (0, 1, 1), (1, 0, 2), (1, 1, 0)]
       add(dict(rows_menu=FULL["rows_menu"], pacs=FULL["pacs"], tabs=FULL["tabs"], item_menu=[0, 3, 6], nulls=2, tails=[0, 1, 2, 3],
@@ -866,7 +901,8 @@ class PopOnHarness(SccHarness):
       add(dict(rows_menu=FULL["rows_menu"], pacs=[0, 3], item_menu=[0, 6, 7], rows=[2], tails=[0, 2], single_ok=1), aligns)
       add(dict(rows_menu=[0, 1, 2, 5], pacs=[0, 5], item_menu=[0, 7], rows=[3], tails=[0, 1]), aligns)
       add(dict(tails=[2], ch2=1, second=dict(rows_menu=FULL["rows_menu"], pacs=FULL["pacs"], tabs=[0, 1], item_menu=[0, 3, 5, 6],
-                                              nulls=2)), aligns)
+                                              nulls=2)), aligns, ml=True)
+      add(dict(rows_menu=FULL["rows_menu"], pacs=[0, 3, 5], tabs=[0, 1], nulls=2, tails=[1, 2, 3, 4], single_ok=1), two, ml=True)
       add(dict(tails=[2], second=dict(rows_menu=[0, 1], pacs=[0, 3], item_menu=FULL["item_menu"], items=2)), two)
       # composing over the flipped-out memory (no ENM): same rows on purpose
       add(dict(rows_menu=[0, 1], pacs=[0, 1, 3], tabs=[0, 1], item_menu=[0, 6], tails=[4],
@@ -882,7 +918,7 @@ register(PopOnHarness())
 class RollUpHarness(SccHarness):
   name = "c08_rollup"
   gen_name = "rollup"
-  required_witnesses = ("captions-compared", "tag:erased-by-EDM", "tag:RU2", "tag:RU3", "tag:RU4")
+  required_witnesses = ("captions-compared", "tag:erased-by-EDM", "tag:RU2", "tag:RU3", "tag:RU4", "tag:multi-line")
   assumptions = SccHarness.assumptions + (
     "roll-up and paint-on are compared run by run: a run is the display between two structural changes (roll, erase, flip); "
     "the document may split a run into contiguous paragraphs showing successive received states; the text of a run is "
@@ -897,9 +933,11 @@ class RollUpHarness(SccHarness):
   def partitions(self, tier):
     out = []
 
-    def add(lim, combos):
+    def add(lim, combos, ml=True):
       for df, parity, align in combos:
         out.append({"mode": "roll", "df": df, "parity": parity, "align": align, "lim": lim})
+        if ml:   # the same family with every roll-up line on its own SCC line (own symbolic time code)
+          out.append({"mode": "roll", "df": 1 - df, "parity": parity, "align": align, "lim": dict(lim, multi_line=1)})
 
     two = [(0, 1, 0), (1, 0, 2)]
     all4 = [(0, 0, 0), (0, 1, 1), (1, 0, 2), (1, 1, 0)]
@@ -925,7 +963,7 @@ class RollUpHarness(SccHarness):
 class PaintOnHarness(SccHarness):
   name = "c08_painton"
   gen_name = "painton"
-  required_witnesses = ("captions-compared", "tag:erased-by-EDM", "run-split-into-paragraphs")
+  required_witnesses = ("captions-compared", "tag:erased-by-EDM", "run-split-into-paragraphs", "tag:multi-line")
   assumptions = RollUpHarness.assumptions
   bounds = {"quick": "RDC then 1-2 rows {PAC (4 rows x 3 PACs) [TO1] 1-2 of 10 text items [nulls]} then {EOF | EDM | EDM + new row | "
                      "first row written again}; symbolic n0; 2 of the 4 {NDF,DF} x parity combinations",
@@ -936,21 +974,23 @@ class PaintOnHarness(SccHarness):
   def partitions(self, tier):
     out = []
 
-    def add(lim, combos):
+    def add(lim, combos, ml=False):
       for df, parity, align in combos:
         out.append({"mode": "paint", "df": df, "parity": parity, "align": align, "lim": lim})
+        if ml:   # the same family with every row on its own SCC line (own symbolic time code)
+          out.append({"mode": "paint", "df": 1 - df, "parity": parity, "align": align, "lim": dict(lim, multi_line=1)})
 
     two = [(0, 1, 0), (1, 0, 2)]
     all4 = [(0, 0, 0), (0, 1, 1), (1, 0, 2), (1, 1, 0)]
     if tier == "quick":
       add(dict(rows_menu=[0, 1, 2, 5], pacs=[0, 3, 5], tabs=[0, 1], item_menu=[0, 3, 6], rows=2, nulls=2, tails=[0, 1, 2, 3],
-               per_line=[{}, dict(pacs=[0], tabs=[0], item_menu=[0, 6], nulls=1)]), two)
+               per_line=[{}, dict(pacs=[0], tabs=[0], item_menu=[0, 6], nulls=1)]), two, ml=True)
       add(dict(pacs=[0, 5], item_menu=list(range(10)), items=2, tails=[0, 1]), two)
     else:
       add(dict(rows_menu=FULL["rows_menu"], pacs=FULL["pacs"], tabs=FULL["tabs"], item_menu=[0, 3, 6], nulls=2, tails=[0, 1, 2, 3],
                single_ok=1), all4)
       add(dict(rows_menu=[0, 1, 2, 5], pacs=[0, 3, 5], tabs=[0, 1], item_menu=[0, 3, 5, 6, 7], rows=[2], nulls=2,
-               tails=[0, 1, 2, 3], ch2=1, per_line=[{}, dict(pacs=[0, 5], tabs=[0], item_menu=[0, 6, 7], nulls=1)]), all4)
+               tails=[0, 1, 2, 3], ch2=1, per_line=[{}, dict(pacs=[0, 5], tabs=[0], item_menu=[0, 6, 7], nulls=1)]), all4, ml=True)
       add(dict(pacs=[0, 3, 5], tabs=[0, 2], item_menu=list(range(10)), items=2, tails=[0, 1, 3]), all4)
       add(dict(rows_menu=[0, 1, 2, 5], pacs=[0, 5], item_menu=[0, 7], rows=[3], tails=[0, 1, 3]), two)
     return out
